@@ -13,12 +13,12 @@ import (
 func TestC06Termination(t *testing.T) {
 	rapid.Check(t, func(t *rapid.T) {
 		withByz := rapid.Bool().Draw(t, "withbyz")
-		gen := vnet.GenOpts{MaxMembers: maxMembers(), MaxInstances: 2, MaxPathLen: 5, AllowByz: withByz, AllowSilent: true, HonestQuorum: true, MaxExponent: 1.5, ForceByzIfAble: withByz}
+		gen := vnet.GenOpts{MaxMembers: maxMembers(), MaxInstances: 3, MaxPathLen: 5, AllowByz: withByz, AllowSilent: true, HonestQuorum: true, MaxExponent: 1.5, ForceByzIfAble: withByz}
 		if withByz {
 			gen.MaxExponent = 1.3 // the +40 bound needs deep rounds: keep time.Duration in range
 		}
 		profile := rapid.SampledFrom(vnet.Profiles).Draw(t, "profile")
-		if profile == "gate" || profile == "laggard" {
+		if profile == "gate" || profile == "laggard" || profile == "rotlag" || profile == "rules" {
 			gen.MinPathLen = 1
 			gen.Unanimous = rapid.Bool().Draw(t, "gateunanimous")
 		}
@@ -72,6 +72,12 @@ func TestC06Termination(t *testing.T) {
 			vev.Fail(t, "C06", "C06/termination/round-bound-exceeded",
 				"an honest participant reached round %d > R+%d (R=%d at stabilisation, Byzantine ever sent=%v) before all honest participants decided\n  world: honest=%v silent=%v byz=%v instances=%d profile=%s prefix-events=%d\n  %s\n  last events:\n    %s",
 				cr.MaxRoundAfter, bound, cr.RoundAtStart, w.ByzEverSent, cfg.Honest, cfg.Silent, cfg.Byz, len(cfg.Instances), profile, prefixEvents, w.Summary(), joinLines(tr))
+		case cr.Stalled:
+			tr := w.Trace
+			if len(tr) > 120 {
+				tr = tr[len(tr)-120:]
+			}
+			vev.Fail(t, "C06", "C06/termination/stalled", "timely regime: %s while not every started honest participant has decided and the decided ones have nothing in flight\n  world: honest=%v silent=%v byz=%v instances=%d profile=%s\n  %s\n  last events:\n    %s", cr.StalledNote, cfg.Honest, cfg.Silent, cfg.Byz, len(cfg.Instances), profile, w.Summary(), joinLines(tr))
 		case !cr.AllDecided:
 			// step budget hit or nothing left to do without everybody deciding
 			label = "inconclusive-step-budget"
